@@ -295,6 +295,31 @@ struct Slot {
     started_ms: AtomicU64, // 0 = idle
     stream: AtomicU64,
     case: AtomicU64,
+    /// kernel thread id of the worker that owns the slot (0 = unknown), for the CPU-time reading of the watchdog
+    tid: AtomicU64,
+}
+
+/// the calling thread's kernel id, from the /proc/thread-self link ("<pid>/task/<tid>")
+fn own_tid() -> u64 {
+    std::fs::read_link("/proc/thread-self")
+        .ok()
+        .and_then(|p| p.file_name().and_then(|f| f.to_str()).and_then(|f| f.parse::<u64>().ok()))
+        .unwrap_or(0)
+}
+
+/// CPU time (user + system) a thread of this process has used so far, in milliseconds (clock ticks of 10 ms)
+fn thread_cpu_ms(tid: u64) -> Option<u64> {
+    if tid == 0 {
+        return None;
+    }
+    let stat = std::fs::read_to_string(format!("/proc/self/task/{}/stat", tid)).ok()?;
+    // the command name (field 2) may contain spaces; the numeric fields start after the last ')'
+    let rest = &stat[stat.rfind(')')? + 1..];
+    let f: Vec<&str> = rest.split_whitespace().collect();
+    // rest starts at field 3 (state): utime is field 14, stime field 15
+    let ut: u64 = f.get(11)?.parse().ok()?;
+    let st: u64 = f.get(12)?.parse().ok()?;
+    Some((ut + st) * 10)
 }
 
 fn run_one(
@@ -431,6 +456,7 @@ pub fn run(mon: Arc<dyn Monitor>, cfg: &Config) -> i32 {
                 started_ms: AtomicU64::new(0),
                 stream: AtomicU64::new(0),
                 case: AtomicU64::new(0),
+                tid: AtomicU64::new(0),
             })
             .collect(),
     );
@@ -450,22 +476,47 @@ pub fn run(mon: Arc<dyn Monitor>, cfg: &Config) -> i32 {
         let seed = cfg.seed;
         let budget = cfg.budget;
         let stream_names: Vec<&'static str> = streams.iter().map(|s| s.name).collect();
-        std::thread::spawn(move || loop {
+        // A case "hangs" when its thread has burnt `hang_s` seconds of CPU TIME without returning: that does not depend
+        // on how busy the machine is. The wall clock only serves as a far more generous backstop (15 x hang_s), and
+        // when only that one fires the verdict is INCONCLUSIVE for every property - a loaded machine is not a defect.
+        let wall_backstop_ms = hang_ms * 15;
+        std::thread::spawn(move || {
+            // per slot: the (start stamp, stream, case) last seen and the thread's CPU reading when it was first seen
+            let mut seen: Vec<(u64, u64, u64, Option<u64>)> = vec![(0, 0, 0, None); slots.len()];
+            loop {
             std::thread::sleep(Duration::from_millis(250));
             if done.load(Ordering::SeqCst) {
                 return;
             }
             let now = now_ms(start);
-            for s in slots.iter() {
+            for (si, s) in slots.iter().enumerate() {
                 let st = s.started_ms.load(Ordering::SeqCst);
-                if st != 0 && now > st && now - st > hang_ms {
+                if st == 0 {
+                    seen[si] = (0, 0, 0, None);
+                    continue;
+                }
+                let key = (st, s.stream.load(Ordering::SeqCst), s.case.load(Ordering::SeqCst));
+                let tid = s.tid.load(Ordering::SeqCst);
+                if (seen[si].0, seen[si].1, seen[si].2) != key {
+                    seen[si] = (key.0, key.1, key.2, thread_cpu_ms(tid));
+                    continue;
+                }
+                let cpu_used = match (seen[si].3, thread_cpu_ms(tid)) {
+                    (Some(a), Some(b)) => Some(b.saturating_sub(a)),
+                    _ => None,
+                };
+                let wall_used = now.saturating_sub(st);
+                let cpu_hang = cpu_used.map_or(false, |c| c > hang_ms);
+                // without a CPU reading (no /proc) fall back on the wall clock alone, generously
+                let wall_hang = wall_used > wall_backstop_ms || (cpu_used.is_none() && wall_used > hang_ms * 6);
+                if cpu_hang || wall_hang {
                     let stream = s.stream.load(Ordering::SeqCst) as usize;
                     let case = s.case.load(Ordering::SeqCst);
                     let prop = mon.id();
                     let sname = stream_names.get(stream).copied().unwrap_or("?");
-                    let viol = mon.hang_is_violation();
+                    let viol = mon.hang_is_violation() && cpu_hang;
                     let detail = J::obj()
-                        .set("what", J::s(format!("a case did not return within {} s", hang_ms / 1000)));
+                        .set("what", J::s(format!("a case did not return: {} ms of CPU time, {} ms of wall-clock time (limits {} / {})", cpu_used.map_or(-1, |c| c as i64), wall_used, hang_ms, wall_backstop_ms)));
                     let path = write_replay(
                         &root, prop, tier, seed, budget, sname, case, "watchdog",
                         &format!("{}/watchdog/no-return-within-{}s", prop, hang_ms / 1000),
@@ -505,6 +556,7 @@ pub fn run(mon: Arc<dyn Monitor>, cfg: &Config) -> i32 {
                     }
                 }
             }
+            }
         });
     }
 
@@ -518,6 +570,7 @@ pub fn run(mon: Arc<dyn Monitor>, cfg: &Config) -> i32 {
             continue;
         }
         let slot = &slots[nthreads];
+        slot.tid.store(own_tid(), Ordering::SeqCst);
         for idx in 0..s.cases {
             if start.elapsed() > deadline {
                 truncated.store(true, Ordering::SeqCst);
@@ -555,6 +608,7 @@ pub fn run(mon: Arc<dyn Monitor>, cfg: &Config) -> i32 {
             .spawn(move || {
                 let mut ctx = Ctx::new(mon.id(), tier);
                 let slot = &slots[w];
+                slot.tid.store(own_tid(), Ordering::SeqCst);
                 loop {
                     if start.elapsed() > deadline {
                         truncated.store(true, Ordering::SeqCst);
